@@ -143,7 +143,10 @@ func (corSelf *CorDef[T]) YieldFrom(target *CorDef[T], in T) T {
 		return result
 	}
 
-	target.receive(corSelf, in)
+	if !target.receive(corSelf, in) {
+		// The target is done already: nobody is going to answer
+		return result
+	}
 
 	// fmt.Println(corSelf, "Wait for", "result")
 	result, _ = <-corSelf.resultCh
@@ -152,14 +155,22 @@ func (corSelf *CorDef[T]) YieldFrom(target *CorDef[T], in T) T {
 	return result
 }
 
-func (corSelf *CorDef[T]) receive(cor *CorDef[T], in T) {
-	corSelf.doCloseSafe(func() {
-		if corSelf.opCh != nil {
-			// fmt.Println(corSelf, "Wait for", "receive", cor, in)
-			corSelf.opCh <- &CorOp[T]{cor: cor, val: in}
-			// fmt.Println(corSelf, "Wait for", "receive", "done")
+func (corSelf *CorDef[T]) receive(cor *CorDef[T], in T) (isSent bool) {
+	if corSelf.IsDone() || corSelf.opCh == nil {
+		return false
+	}
+
+	// Do not hold closedM here: this send blocks while opCh is full, and close() needs the lock.
+	// close() could close opCh at any moment (even while the send is blocked): not sent then
+	defer func() {
+		if recover() != nil {
+			isSent = false
 		}
-	})
+	}()
+	// fmt.Println(corSelf, "Wait for", "receive", cor, in)
+	corSelf.opCh <- &CorOp[T]{cor: cor, val: in}
+	// fmt.Println(corSelf, "Wait for", "receive", "done")
+	return true
 }
 
 // YieldFromIO Yield from a given MonadIO
@@ -198,17 +209,27 @@ func (corSelf *CorDef[T]) close() {
 	}
 	if corSelf.opCh != nil {
 		close(corSelf.opCh)
+		// Nobody is going to serve the pending requests: release their callers
+		for op := range corSelf.opCh {
+			if op != nil && op.cor != nil {
+				cor := op.cor
+				cor.doCloseSafe(func() {
+					cor.resultCh <- *new(T)
+				})
+			}
+		}
 	}
 	corSelf.closedM.Unlock()
 }
 
 func (corSelf *CorDef[T]) doCloseSafe(fn func()) {
+	corSelf.closedM.Lock()
+	defer corSelf.closedM.Unlock()
+	// close() closes the channels under this lock: check inside it
 	if corSelf.IsDone() {
 		return
 	}
-	corSelf.closedM.Lock()
 	fn()
-	corSelf.closedM.Unlock()
 }
 
 // Cor Cor utils instance
